@@ -33,7 +33,8 @@ def forward(rep, prog, rule):
         stores = [n for n in F.nodes(kind='assign') if n.stmt[1][0] == 'fld' and n.stmt[1][2] == field and
                   any(x[0] == 'fld' and x[2] == bound for x in ir.subexprs(n.stmt[2]))]
         if len(stores) != 1:
-            raise AnalysisBroken('_init_: expected one store of %s into bb_params.%s, found %d' % (bound, field, len(stores)))
+            rep.cannot_decide(rule, where(fn), 'expected one store of %s into bb_params.%s in _init_, found %d' % (bound, field, len(stores)))
+            continue
         s = stores[0]
         guards = [b for b in F.nodes(kind='branch') if F.dominates(b, s) and b.succ[0] != b.succ[1] and
                   (s.id in F.reach(b.succ[0])) != (s.id in F.reach(b.succ[1]))]
